@@ -1,22 +1,41 @@
 /-
-Lemmas about the core engine model, part 4: input sessions (writes + dirty propagation).
+Lemmas about the core engine model, part 4: input sessions (writes, refresh, dirty propagation).
 -/
 import QbiceVerif.Lemmas.EngineCore3
 namespace Qbice.Core
 
 /-- reference semantics of the writes of a session on the committed inputs -/
-def applyWrites : List (Key × Val) → (Key → Option Val) → (Key → Option Val)
+def applyWrites : List Write → (Key → Option Val) → (Key → Option Val)
   | [], i => i
-  | (k, v) :: rest, i => applyWrites rest (fun x => if x = k then some v else i x)
+  | .set k v :: rest, i => applyWrites rest (fun x => if x = k then some v else i x)
+  | .refresh :: rest, i => applyWrites rest i
+  | .world _ _ :: rest, i => applyWrites rest i
 
 /-- reference results of the writes: by presence / equality of the previous value -/
-def writeResults : List (Key × Val) → (Key → Option Val) → List SetRes
+def writeResults : List Write → (Key → Option Val) → List SetRes
   | [], _ => []
-  | (k, v) :: rest, i =>
+  | .set k v :: rest, i =>
     (match i k with
       | none => SetRes.fresh
       | some w => if w ≠ v then SetRes.updated else SetRes.unchanged) ::
       writeResults rest (fun x => if x = k then some v else i x)
+  | .refresh :: rest, i => .refreshed :: writeResults rest i
+  | .world _ _ :: rest, i => .world :: writeResults rest i
+
+/-- reference semantics of one `refresh` on the pinned external values: every external key computed
+    so far takes the value of its executor on the world `w` -/
+def refreshed (p : Program) (w : Key → Val) (e : Key → Option Val) (k : Key) : Option Val :=
+  match e k, p[k]? with
+  | some _, some d => some (d.ext w)
+  | o, _ => o
+
+/-- reference semantics of the writes of a session on the pinned external values (`w` = the world
+    after the world writes of the session) -/
+def applyRefresh (p : Program) (w : Key → Val) : List Write → (Key → Option Val) → (Key → Option Val)
+  | [], e => e
+  | .refresh :: rest, e => applyRefresh p w rest (refreshed p w e)
+  | .set _ _ :: rest, e => applyRefresh p w rest e
+  | .world _ _ :: rest, e => applyRefresh p w rest e
 
 /-- the commit step of a session: dirty propagation from the changed inputs -/
 def markDirty (p : Program) (s1 : St) (changed : List Key) : St :=
@@ -25,19 +44,28 @@ def markDirty (p : Program) (s1 : St) (changed : List Key) : St :=
         | some n => n.deps.any (fun e => e.1 == x)
         | none => false) && affected s1 changed (p.length + 1) x) }
 
-theorem session_eq (p : Program) (sets : List (Key × Val)) (s : St) :
-    session p sets s =
-      match applySets p sets { s with epoch := s.epoch + 1 } [] [] with
+/-- the state in which the writes of a session start -/
+def sessionStart (ws : List Write) (s : St) : St :=
+  { s with epoch := s.epoch + 1, world := applyWorld ws s.world }
+
+theorem session_eq (p : Program) (ws : List Write) (s : St) :
+    session p ws s =
+      match applySets p ws (sessionStart ws s) [] [] with
       | .error e => .error e
       | .ok (s1, rs, changed) => .ok (rs, markDirty p s1 changed) := rfl
 
 /-- relation between the state at the start of the writes and during/after them -/
 def SetRel (p : Program) (s0 s : St) (ch : List Key) : Prop :=
-  s.epoch = s0.epoch ∧ s.dirty = s0.dirty ∧ s.log = s0.log ∧
+  s.epoch = s0.epoch ∧ s.dirty = s0.dirty ∧ s.world = s0.world ∧
+  (∃ l, s.log = s0.log ++ l ∧ ∀ x, x ∈ l → ∃ n, s0.nodes x = some n ∧ n.kind = .external) ∧
   ∀ x, s.nodes x = s0.nodes x ∨
-    ∃ n', s.nodes x = some n' ∧ n'.isInput = true ∧ n'.deps = [] ∧ n'.lastVerified = s0.epoch ∧
-      (∃ d, p[x]? = some d ∧ d.isInput = true) ∧
+    ∃ n', s.nodes x = some n' ∧ n'.kind ≠ .normal ∧ n'.deps = [] ∧ n'.lastVerified = s0.epoch ∧
+      (∃ d, p[x]? = some d ∧ d.kind = n'.kind) ∧
+      (n'.kind = .external → ∃ n, s0.nodes x = some n ∧ n.kind = .external) ∧
       (s0.nodes x = none ∨ x ∈ ch ∨ ∃ n, s0.nodes x = some n ∧ n.value = n'.value)
+
+theorem SetRel.refl (p : Program) (s : St) : SetRel p s s [] :=
+  ⟨rfl, rfl, rfl, ⟨[], by simp, fun _ h => (by cases h)⟩, fun _ => Or.inl rfl⟩
 
 theorem mem_ite_append {x k : Key} {ch : List Key} (c : Prop) [Decidable c] (h : x ∈ ch) :
     x ∈ if c then ch ++ [k] else ch := by
@@ -45,122 +73,297 @@ theorem mem_ite_append {x k : Key} {ch : List Key} (c : Prop) [Decidable c] (h :
   · exact List.mem_append_left _ h
   · exact h
 
-theorem applySets_rel {p : Program} {s0 : St} :
-    ∀ (sets : List (Key × Val)) (s : St) (rs : List SetRes) (ch : List Key)
+/-- the program's kind of every key that has a node is the node's kind -/
+def KindsOK (p : Program) (s : St) : Prop :=
+  ∀ k n, s.nodes k = some n → ∃ d, p[k]? = some d ∧ d.kind = n.kind
+
+theorem Inv.kindsOK {p : Program} {s : St} (inv : Inv p s) : KindsOK p s := by
+  intro k n hn
+  obtain ⟨d, hp, hk, _⟩ := inv.kind k n hn
+  exact ⟨d, hp, hk⟩
+
+theorem isExtNode_iff {s : St} {k : Key} :
+    isExtNode s k = true ↔ ∃ n, s.nodes k = some n ∧ n.kind = .external := by
+  simp only [isExtNode]
+  cases s.nodes k with
+  | none => simp
+  | some n => simp
+
+/-- one `refresh` step preserves the relation -/
+theorem refreshAll_rel {p : Program} {s0 s : St} {ch : List Key} (hk0 : KindsOK p s0)
+    (h : SetRel p s0 s ch) : SetRel p s0 (refreshAll p s ch).1 (refreshAll p s ch).2 := by
+  obtain ⟨he, hd, hw, ⟨l, hl, hlm⟩, hnodes⟩ := h
+  -- an external node of `s` is an external node of `s0`
+  have ext0 : ∀ x n, s.nodes x = some n → n.kind = .external →
+      ∃ n0, s0.nodes x = some n0 ∧ n0.kind = .external := by
+    intro x n hx hk
+    cases hnodes x with
+    | inl h => exact ⟨n, by rw [← h]; exact hx, hk⟩
+    | inr h =>
+      obtain ⟨n', hn', _, _, _, _, h5, _⟩ := h
+      rw [hx] at hn'; cases hn'
+      exact h5 hk
+  refine ⟨he, hd, hw, ⟨l ++ (List.range p.length).filter (isExtNode s), ?_, ?_⟩, ?_⟩
+  · simp only [refreshAll, hl, List.append_assoc]
+  · intro x hx
+    rw [List.mem_append] at hx
+    cases hx with
+    | inl hx => exact hlm x hx
+    | inr hx =>
+      rw [List.mem_filter] at hx
+      obtain ⟨n, hn, hk⟩ := isExtNode_iff.1 hx.2
+      exact ext0 x n hn hk
+  · intro x
+    have hsub : ∀ y, y ∈ ch → y ∈ (refreshAll p s ch).2 := fun y hy => by
+      simp only [refreshAll]; exact List.mem_append_left _ hy
+    simp only [refreshAll, refreshNode]
+    cases hx : s.nodes x with
+    | none =>
+      simp only
+      cases hnodes x with
+      | inl h => left; rw [← h]; exact hx.symm
+      | inr h => obtain ⟨n', hn', _⟩ := h; rw [hx] at hn'; cases hn'
+    | some n =>
+      -- the kind of the program at `x`
+      have hkx : ∃ d, p[x]? = some d ∧ d.kind = n.kind := by
+        cases hnodes x with
+        | inl h => exact hk0 x n (by rw [← h]; exact hx)
+        | inr h =>
+          obtain ⟨n', hn', _, _, _, h4, _⟩ := h
+          rw [hx] at hn'; cases hn'; exact h4
+      obtain ⟨d, hp, hdk⟩ := hkx
+      rw [hp]
+      simp only
+      by_cases hk : n.kind = .external
+      · rw [if_pos hk]
+        right
+        refine ⟨_, rfl, by simp [hk], rfl, he, ⟨d, rfl, hdk⟩, fun _ => ext0 x n hx hk, ?_⟩
+        by_cases hv : n.value = d.ext s.world
+        · -- unchanged by this refresh: whatever was known before still holds
+          cases hnodes x with
+          | inl h => right; right; exact ⟨n, by rw [← h]; exact hx, hv⟩
+          | inr h =>
+            obtain ⟨n', hn', _, _, _, _, _, h6⟩ := h
+            rw [hx] at hn'; cases hn'
+            rcases h6 with h6 | h6 | ⟨n0, h0, hv0⟩
+            · exact Or.inl h6
+            · exact Or.inr (Or.inl (hsub x h6))
+            · exact Or.inr (Or.inr ⟨n0, h0, by rw [hv0]; exact hv⟩)
+        · right; left
+          apply List.mem_append_right
+          rw [List.mem_filter]
+          have hlt : x < p.length := by
+            rw [List.getElem?_eq_some_iff] at hp
+            obtain ⟨h, _⟩ := hp; exact h
+          refine ⟨?_, ?_⟩
+          · rw [List.mem_filter]
+            exact ⟨List.mem_range.2 hlt, isExtNode_iff.2 ⟨n, hx, hk⟩⟩
+          · simp [extChanged, hx, hp, hk, hv]
+      · rw [if_neg hk]
+        cases hnodes x with
+        | inl h => left; rw [← h]; exact hx.symm
+        | inr h =>
+          right
+          obtain ⟨n', hn', a1, a2, a3, _, a5, h6⟩ := h
+          rw [hx] at hn'; cases hn'
+          refine ⟨n, rfl, a1, a2, a3, ⟨d, rfl, hdk⟩, a5, ?_⟩
+          rcases h6 with h6 | h6 | h6
+          · exact Or.inl h6
+          · exact Or.inr (Or.inl (hsub x h6))
+          · exact Or.inr (Or.inr h6)
+
+theorem applySets_rel {p : Program} {s0 : St} (hk0 : KindsOK p s0) :
+    ∀ (ws : List Write) (s : St) (rs : List SetRes) (ch : List Key)
       (s1 : St) (rs1 : List SetRes) (ch1 : List Key),
-      SetRel p s0 s ch → applySets p sets s rs ch = .ok (s1, rs1, ch1) → SetRel p s0 s1 ch1 := by
-  intro sets
-  induction sets with
+      SetRel p s0 s ch → applySets p ws s rs ch = .ok (s1, rs1, ch1) → SetRel p s0 s1 ch1 := by
+  intro ws
+  induction ws with
   | nil =>
     intro s rs ch s1 rs1 ch1 h e
     simp only [applySets] at e
     cases e; exact h
   | cons w rest ih =>
     intro s rs ch s1 rs1 ch1 h e
-    obtain ⟨k, v⟩ := w
-    simp only [applySets] at e
-    cases hp : p[k]? with
-    | none => rw [hp] at e; cases e
-    | some d =>
-      rw [hp] at e
-      simp only at e
-      cases hi : d.isInput with
-      | false => rw [hi] at e; cases e
-      | true =>
-        rw [hi] at e
-        simp only [Bool.not_true, Bool.false_eq_true, if_false] at e
-        refine ih _ _ _ _ _ _ ?_ e
-        obtain ⟨he, hd, hl, hnodes⟩ := h
-        refine ⟨he, hd, hl, ?_⟩
-        intro x
-        by_cases hx : x = k
-        · subst hx
-          right
-          refine ⟨{ isInput := true, lastVerified := s.epoch, value := v, deps := [] },
-            by simp [setNode], rfl, rfl, he, ⟨d, hp, hi⟩, ?_⟩
-          cases hsx : s.nodes x with
-          | none =>
-            left
-            cases hnodes x with
-            | inl h => rw [← h]; exact hsx
-            | inr h => obtain ⟨n', hn', _⟩ := h; rw [hsx] at hn'; cases hn'
-          | some n =>
-            simp only
-            by_cases hv : n.value = v
-            · simp only [hv, ne_eq, not_true_eq_false, if_false]
-              cases hnodes x with
-              | inl h => right; right; exact ⟨n, by rw [← h]; exact hsx, hv⟩
-              | inr h =>
-                obtain ⟨n', hn', _, _, _, _, h3⟩ := h
-                rw [hsx] at hn'; cases hn'
-                rcases h3 with h3 | h3 | ⟨n0, h0, hv0⟩
-                · exact Or.inl h3
-                · exact Or.inr (Or.inl (by simp [h3]))
-                · exact Or.inr (Or.inr ⟨n0, h0, by rw [hv0, hv]⟩)
-            · right; left
-              simp [hv]
-        · cases hnodes x with
-          | inl h => left; simp only [setNode, if_neg hx]; exact h
-          | inr h =>
+    cases w with
+    | world c v =>
+      simp only [applySets] at e
+      exact ih _ _ _ _ _ _ h e
+    | refresh =>
+      simp only [applySets] at e
+      exact ih _ _ _ _ _ _ (refreshAll_rel hk0 h) e
+    | set k v =>
+      simp only [applySets] at e
+      cases hp : p[k]? with
+      | none => rw [hp] at e; cases e
+      | some d =>
+        rw [hp] at e
+        simp only at e
+        by_cases hi : d.kind = .input
+        · simp only [hi, ne_eq, not_true_eq_false, if_false] at e
+          refine ih _ _ _ _ _ _ ?_ e
+          obtain ⟨he, hd, hw, hl, hnodes⟩ := h
+          refine ⟨he, hd, hw, hl, ?_⟩
+          intro x
+          by_cases hx : x = k
+          · subst hx
             right
-            obtain ⟨n', hn', a1, a2, a3, a4, h3⟩ := h
-            refine ⟨n', by simp only [setNode, if_neg hx]; exact hn', a1, a2, a3, a4, ?_⟩
-            rcases h3 with h3 | h3 | h3
-            · exact Or.inl h3
-            · exact Or.inr (Or.inl (mem_ite_append _ h3))
-            · exact Or.inr (Or.inr h3)
+            refine ⟨{ kind := .input, lastVerified := s.epoch, value := v, deps := [] },
+              by simp [setNode], by simp, rfl, he, ⟨d, hp, hi⟩, fun h => (by cases h), ?_⟩
+            cases hsx : s.nodes x with
+            | none =>
+              left
+              cases hnodes x with
+              | inl h => rw [← h]; exact hsx
+              | inr h => obtain ⟨n', hn', _⟩ := h; rw [hsx] at hn'; cases hn'
+            | some n =>
+              simp only
+              by_cases hv : n.value = v
+              · simp only [hv, not_true_eq_false, if_false]
+                cases hnodes x with
+                | inl h => right; right; exact ⟨n, by rw [← h]; exact hsx, hv⟩
+                | inr h =>
+                  obtain ⟨n', hn', _, _, _, _, _, h3⟩ := h
+                  rw [hsx] at hn'; cases hn'
+                  rcases h3 with h3 | h3 | ⟨n0, h0, hv0⟩
+                  · exact Or.inl h3
+                  · exact Or.inr (Or.inl (by simp [h3]))
+                  · exact Or.inr (Or.inr ⟨n0, h0, by rw [hv0, hv]⟩)
+              · right; left
+                simp [hv]
+          · cases hnodes x with
+            | inl h => left; simp only [setNode, if_neg hx]; exact h
+            | inr h =>
+              right
+              obtain ⟨n', hn', a1, a2, a3, a4, a5, h3⟩ := h
+              refine ⟨n', by simp only [setNode, if_neg hx]; exact hn', a1, a2, a3, a4, a5, ?_⟩
+              rcases h3 with h3 | h3 | h3
+              · exact Or.inl h3
+              · exact Or.inr (Or.inl (mem_ite_append _ h3))
+              · exact Or.inr (Or.inr h3)
+        · simp only [ne_eq, hi, not_false_eq_true, if_true] at e
+          cases e
 
-/-- nodes of input keys are input nodes -/
-def InputKinds (p : Program) (s : St) : Prop :=
-  ∀ k n d, s.nodes k = some n → p[k]? = some d → d.isInput = true → n.isInput = true
+theorem KindsOK.refreshAll {p : Program} {s : St} (hk : KindsOK p s) (ch : List Key) :
+    KindsOK p (refreshAll p s ch).1 := by
+  intro x n hn
+  simp only [Qbice.Core.refreshAll, refreshNode] at hn
+  cases hx : s.nodes x with
+  | none => rw [hx] at hn; cases hn
+  | some n0 =>
+    obtain ⟨d, hp, hdk⟩ := hk x n0 hx
+    rw [hx, hp] at hn
+    simp only at hn
+    split at hn
+    · cases hn; exact ⟨d, hp, hdk⟩
+    · cases hn; exact ⟨d, hp, hdk⟩
+
+theorem refreshAll_io {p : Program} {s : St} (hk : KindsOK p s) (ch : List Key) :
+    inputsOf (refreshAll p s ch).1 = inputsOf s ∧
+      pinsOf (refreshAll p s ch).1 = refreshed p s.world (pinsOf s) := by
+  refine ⟨?_, ?_⟩
+  · funext x
+    simp only [inputsOf, refreshAll, refreshNode]
+    cases hx : s.nodes x with
+    | none => rfl
+    | some n =>
+      obtain ⟨d, hp, _⟩ := hk x n hx
+      rw [hp]
+      simp only
+      by_cases he : n.kind = .external
+      · simp [he]
+      · simp [he]
+  · funext x
+    simp only [pinsOf, refreshed, refreshAll, refreshNode]
+    cases hx : s.nodes x with
+    | none => rfl
+    | some n =>
+      obtain ⟨d, hp, _⟩ := hk x n hx
+      rw [hp]
+      simp only
+      by_cases he : n.kind = .external
+      · simp [he]
+      · simp [he]
 
 theorem applySets_io {p : Program} :
-    ∀ (sets : List (Key × Val)) (s : St) (rs : List SetRes) (ch : List Key)
+    ∀ (ws : List Write) (s : St) (rs : List SetRes) (ch : List Key)
       (s1 : St) (rs1 : List SetRes) (ch1 : List Key),
-      InputKinds p s → applySets p sets s rs ch = .ok (s1, rs1, ch1) →
-      inputsOf s1 = applyWrites sets (inputsOf s) ∧ rs1 = rs ++ writeResults sets (inputsOf s) := by
-  intro sets
-  induction sets with
+      KindsOK p s → applySets p ws s rs ch = .ok (s1, rs1, ch1) →
+      inputsOf s1 = applyWrites ws (inputsOf s) ∧ rs1 = rs ++ writeResults ws (inputsOf s) ∧
+        pinsOf s1 = applyRefresh p s.world ws (pinsOf s) := by
+  intro ws
+  induction ws with
   | nil =>
     intro s rs ch s1 rs1 ch1 _ e
     simp only [applySets] at e
-    cases e; simp [applyWrites, writeResults]
+    cases e; simp [applyWrites, writeResults, applyRefresh]
   | cons w rest ih =>
     intro s rs ch s1 rs1 ch1 hk e
-    obtain ⟨k, v⟩ := w
-    simp only [applySets] at e
-    cases hp : p[k]? with
-    | none => rw [hp] at e; cases e
-    | some d =>
-      rw [hp] at e
-      simp only at e
-      cases hi : d.isInput with
-      | false => rw [hi] at e; cases e
-      | true =>
-        rw [hi] at e
-        simp only [Bool.not_true, Bool.false_eq_true, if_false] at e
-        have hk' : InputKinds p (setNode s k { isInput := true, lastVerified := s.epoch, value := v, deps := [] }) := by
-          intro x n dx hn hpx hix
-          simp only [setNode] at hn
-          by_cases hx : x = k
-          · rw [if_pos hx] at hn; cases hn; rfl
-          · rw [if_neg hx] at hn; exact hk x n dx hn hpx hix
-        obtain ⟨h1, h2⟩ := ih _ _ _ _ _ _ hk' e
-        have hin : inputsOf (setNode s k { isInput := true, lastVerified := s.epoch, value := v, deps := [] })
-            = fun x => if x = k then some v else inputsOf s x := by
-          funext x
-          simp only [inputsOf, setNode]
-          by_cases hx : x = k
-          · simp [hx]
-          · simp [hx]
-        rw [hin] at h1 h2
-        refine ⟨h1, ?_⟩
-        rw [h2]
-        simp only [writeResults, List.append_assoc, List.singleton_append]
-        congr 2
-        cases hsk : s.nodes k with
-        | none => simp [inputsOf, hsk]
-        | some n => simp [inputsOf, hsk, hk k n d hsk hp hi]
+    cases w with
+    | world c v =>
+      simp only [applySets] at e
+      obtain ⟨h1, h2, h3⟩ := ih _ _ _ _ _ _ hk e
+      refine ⟨h1, ?_, h3⟩
+      rw [h2]; simp [writeResults]
+    | refresh =>
+      simp only [applySets] at e
+      obtain ⟨h1, h2, h3⟩ := ih _ _ _ _ _ _ (hk.refreshAll ch) e
+      obtain ⟨g1, g2⟩ := refreshAll_io hk ch
+      rw [g1] at h1 h2
+      rw [g2] at h3
+      refine ⟨h1, ?_, h3⟩
+      rw [h2]; simp [writeResults]
+    | set k v =>
+      simp only [applySets] at e
+      cases hp : p[k]? with
+      | none => rw [hp] at e; cases e
+      | some d =>
+        rw [hp] at e
+        simp only at e
+        by_cases hi : d.kind = .input
+        · simp only [hi, ne_eq, not_true_eq_false, if_false] at e
+          have hk' : KindsOK p (setNode s k { kind := .input, lastVerified := s.epoch, value := v, deps := [] }) := by
+            intro x n hn
+            simp only [setNode] at hn
+            by_cases hx : x = k
+            · rw [if_pos hx] at hn; cases hn; subst hx; exact ⟨d, hp, hi⟩
+            · rw [if_neg hx] at hn; exact hk x n hn
+          obtain ⟨h1, h2, h3⟩ := ih _ _ _ _ _ _ hk' e
+          have hin : inputsOf (setNode s k { kind := .input, lastVerified := s.epoch, value := v, deps := [] })
+              = fun x => if x = k then some v else inputsOf s x := by
+            funext x
+            simp only [inputsOf, setNode]
+            by_cases hx : x = k
+            · simp [hx]
+            · simp [hx]
+          have hpin : pinsOf (setNode s k { kind := .input, lastVerified := s.epoch, value := v, deps := [] })
+              = pinsOf s := by
+            funext x
+            simp only [pinsOf, setNode]
+            by_cases hx : x = k
+            · subst hx
+              simp only [if_true]
+              cases hsx : s.nodes x with
+              | none => simp
+              | some n =>
+                obtain ⟨d', hp', hk'⟩ := hk x n hsx
+                rw [hp] at hp'; cases hp'
+                have : ¬ n.kind = .external := by rw [← hk', hi]; decide
+                simp [this]
+            · simp [hx]
+          rw [hin] at h1 h2
+          rw [hpin] at h3
+          refine ⟨h1, ?_, h3⟩
+          rw [h2]
+          simp only [writeResults, List.append_assoc, List.singleton_append]
+          congr 2
+          cases hsk : s.nodes k with
+          | none => simp [inputsOf, hsk]
+          | some n =>
+            obtain ⟨d', hp', hk'⟩ := hk k n hsk
+            rw [hp] at hp'; cases hp'
+            simp [inputsOf, hsk, ← hk', hi]
+        · simp only [ne_eq, hi, not_false_eq_true, if_true] at e
+          cases e
 
 theorem any_congr_mem {α : Type} {l : List α} {f g : α → Bool} (h : ∀ a, a ∈ l → f a = g a) :
     l.any f = l.any g := by
@@ -215,7 +418,7 @@ theorem settled_unaffected {p : Program} {s s0 s1 : St} {ch : List Key} (inv : I
     have hxch : x ∉ ch := fun h => by
       have := List.contains_iff_mem.2 h
       rw [this] at hch; cases hch
-    obtain ⟨_, hd1, _, hnodes⟩ := rel
+    obtain ⟨_, hd1, _, _, hnodes⟩ := rel
     cases hnodes x with
     | inl hsame =>
       have hx1 : s1.nodes x = some n := by rw [hsame, h0]; exact hx
@@ -245,7 +448,7 @@ theorem settled_unaffected {p : Program} {s s0 s1 : St} {ch : List Key} (inv : I
       · intro d o hm
         exact (ih d o hm (hdep d o hm)).1
     | inr hnew =>
-      obtain ⟨n', hn', _, hdeps, _, _, h3⟩ := hnew
+      obtain ⟨n', hn', _, hdeps, _, _, _, h3⟩ := hnew
       refine ⟨Settled.mk x n' hn' ?_ ?_ ?_, n, n', hx, hn', ?_⟩
       · intro d o hm; rw [hdeps] at hm; cases hm
       · intro d o hm; rw [hdeps] at hm; cases hm
@@ -255,31 +458,89 @@ theorem settled_unaffected {p : Program} {s s0 s1 : St} {ch : List Key} (inv : I
         · exact absurd h3 hxch
         · rw [h0, hx] at hn0; cases hn0; exact hv0.symm
 
-theorem session_spec {p : Program} {s : St} (inv : Inv p s) {sets : List (Key × Val)}
-    {rs : List SetRes} {s' : St} (h : session p sets s = .ok (rs, s')) :
-    Inv p s' ∧ rs = writeResults sets (inputsOf s) ∧ inputsOf s' = applyWrites sets (inputsOf s) ∧
-      s'.epoch = s.epoch + 1 ∧ s'.log = s.log := by
+theorem applyWorld_const_sets (p : Program) :
+    ∀ (ws : List Write) (s : St) (rs : List SetRes) (ch : List Key) (s1 : St) (rs1 : List SetRes)
+      (ch1 : List Key), applySets p ws s rs ch = .ok (s1, rs1, ch1) → s1.world = s.world := by
+  intro ws
+  induction ws with
+  | nil => intro s rs ch s1 rs1 ch1 e; simp only [applySets] at e; cases e; rfl
+  | cons w rest ih =>
+    intro s rs ch s1 rs1 ch1 e
+    cases w with
+    | world c v => simp only [applySets] at e; exact ih _ _ _ _ _ _ e
+    | refresh => simp only [applySets] at e; have := ih _ _ _ _ _ _ e; exact this
+    | set k v =>
+      simp only [applySets] at e
+      cases hp : p[k]? with
+      | none => rw [hp] at e; cases e
+      | some d =>
+        rw [hp] at e
+        simp only at e
+        split at e
+        · cases e
+        · have := ih _ _ _ _ _ _ e; exact this
+
+/-- without a `refresh` write no executor runs during the writes -/
+theorem applySets_log (p : Program) :
+    ∀ (ws : List Write) (s : St) (rs : List SetRes) (ch : List Key) (s1 : St) (rs1 : List SetRes)
+      (ch1 : List Key), Write.refresh ∉ ws → applySets p ws s rs ch = .ok (s1, rs1, ch1) →
+      s1.log = s.log := by
+  intro ws
+  induction ws with
+  | nil => intro s rs ch s1 rs1 ch1 _ e; simp only [applySets] at e; cases e; rfl
+  | cons w rest ih =>
+    intro s rs ch s1 rs1 ch1 hnr e
+    have hnr' : Write.refresh ∉ rest := fun h => hnr (List.mem_cons_of_mem _ h)
+    cases w with
+    | world c v => simp only [applySets] at e; exact ih _ _ _ _ _ _ hnr' e
+    | refresh => exact absurd (List.mem_cons_self ..) hnr
+    | set k v =>
+      simp only [applySets] at e
+      cases hp : p[k]? with
+      | none => rw [hp] at e; cases e
+      | some d =>
+        rw [hp] at e
+        simp only at e
+        split at e
+        · cases e
+        · have := ih _ _ _ _ _ _ hnr' e; exact this
+
+theorem session_spec {p : Program} {s : St} (inv : Inv p s) {ws : List Write}
+    {rs : List SetRes} {s' : St} (h : session p ws s = .ok (rs, s')) :
+    Inv p s' ∧ rs = writeResults ws (inputsOf s) ∧ inputsOf s' = applyWrites ws (inputsOf s) ∧
+      s'.epoch = s.epoch + 1 ∧ s'.world = applyWorld ws s.world ∧
+      pinsOf s' = applyRefresh p (applyWorld ws s.world) ws (pinsOf s) ∧
+      ∃ l, s'.log = s.log ++ l ∧
+        ∀ x, x ∈ l → Write.refresh ∈ ws ∧ ∃ n, s.nodes x = some n ∧ n.kind = .external := by
   rw [session_eq] at h
-  cases ha : applySets p sets { s with epoch := s.epoch + 1 } [] [] with
+  cases ha : applySets p ws (sessionStart ws s) [] [] with
   | error e => rw [ha] at h; cases h
   | ok r =>
     obtain ⟨s1, rs1, ch⟩ := r
     rw [ha] at h
     simp only at h
     cases h
-    have rel : SetRel p { s with epoch := s.epoch + 1 } s1 ch :=
-      applySets_rel sets _ [] [] s1 rs ch ⟨rfl, rfl, rfl, fun _ => Or.inl rfl⟩ ha
-    have hio := applySets_io sets _ [] [] s1 rs ch (by
-      intro k n d hn hp hi
-      obtain ⟨d', hp', hk', _⟩ := inv.kind k n hn
-      rw [hp] at hp'; cases hp'; rw [← hk']; exact hi) ha
-    obtain ⟨hep, hdirty, hlog, hnodes⟩ := rel
-    have hio : inputsOf s1 = applyWrites sets (inputsOf s) ∧ rs = [] ++ writeResults sets (inputsOf s) := hio
-    simp only at hep hdirty hlog hnodes
+    have hk0 : KindsOK p (sessionStart ws s) := inv.kindsOK
+    have rel : SetRel p (sessionStart ws s) s1 ch :=
+      applySets_rel hk0 ws _ [] [] s1 rs ch (SetRel.refl p _) ha
+    have hio := applySets_io ws _ [] [] s1 rs ch hk0 ha
+    obtain ⟨hep, hdirty, hworld, ⟨l, hlog, hlm⟩, hnodes⟩ := rel
+    have hio : inputsOf s1 = applyWrites ws (inputsOf s) ∧ rs = [] ++ writeResults ws (inputsOf s) ∧
+        pinsOf s1 = applyRefresh p (applyWorld ws s.world) ws (pinsOf s) := hio
+    have hep : s1.epoch = s.epoch + 1 := hep
+    have hdirty : s1.dirty = s.dirty := hdirty
+    have hworld : s1.world = applyWorld ws s.world := hworld
+    have hlog : s1.log = s.log ++ l := hlog
+    have hlm : ∀ x, x ∈ l → ∃ n, s.nodes x = some n ∧ n.kind = .external := hlm
+    have hnodes : ∀ x, s1.nodes x = s.nodes x ∨
+        ∃ n', s1.nodes x = some n' ∧ n'.kind ≠ .normal ∧ n'.deps = [] ∧ n'.lastVerified = s.epoch + 1 ∧
+          (∃ d, p[x]? = some d ∧ d.kind = n'.kind) ∧
+          (n'.kind = .external → ∃ n, s.nodes x = some n ∧ n.kind = .external) ∧
+          (s.nodes x = none ∨ x ∈ ch ∨ ∃ n, s.nodes x = some n ∧ n.value = n'.value) := hnodes
     -- classification of the nodes of `s1`
     have cls : ∀ x nx, s1.nodes x = some nx →
-        s.nodes x = some nx ∨ (nx.isInput = true ∧ nx.deps = [] ∧ nx.lastVerified = s.epoch + 1 ∧
-          ∃ d, p[x]? = some d ∧ d.isInput = true) := by
+        s.nodes x = some nx ∨ (nx.kind ≠ .normal ∧ nx.deps = [] ∧ nx.lastVerified = s.epoch + 1 ∧
+          ∃ d, p[x]? = some d ∧ d.kind = nx.kind) := by
       intro x nx hx
       cases hnodes x with
       | inl h => left; rw [← hx, h]
@@ -292,51 +553,60 @@ theorem session_spec {p : Program} {s : St} (inv : Inv p s) {sets : List (Key ×
       rcases cls x nx hx with h | ⟨_, h, _⟩
       · exact inv.down x nx h d o hm
       · rw [h] at hm; cases hm
-    refine ⟨?_, by simpa using hio.2, hio.1, hep, hlog⟩
-    constructor
-    · intro x nx hx
-      rcases cls x nx hx with h | ⟨h1, h2, _, d, hp, hi⟩
-      · exact inv.kind x nx h
-      · exact ⟨d, hp, by rw [hi, h1], fun _ => h2⟩
-    · exact down1
-    · intro x nx hx
-      rcases cls x nx hx with h | ⟨_, h, _⟩
-      · exact inv.nodup x nx h
-      · rw [h]; simp
-    · intro x nx d hx hp hi
-      rcases cls x nx hx with h | ⟨h, _⟩
-      · exact inv.trace x nx d h hp hi
-      · rw [h] at hi; cases hi
-    · intro x nx hx
-      show nx.lastVerified ≤ s1.epoch
-      rw [hep]
-      rcases cls x nx hx with h | ⟨_, _, h, _⟩
-      · have := inv.stamp x nx h; show nx.lastVerified ≤ s.epoch + 1; omega
-      · show nx.lastVerified ≤ s.epoch + 1; omega
-    · intro x nx hx hv d o hm
-      have hv : nx.lastVerified = s.epoch + 1 := by rw [← hep]; exact hv
-      rcases cls x nx hx with h | ⟨_, h, _⟩
-      · have := inv.stamp x nx h; omega
-      · rw [h] at hm; cases hm
-    · intro x nx hx d o hm hcl
-      have hx1 : s1.nodes x = some nx := hx
-      rcases cls x nx hx1 with h | ⟨_, h, _⟩
-      · simp only [markDirty, Bool.or_eq_false_iff] at hcl
-        obtain ⟨hc1, hc2⟩ := hcl
-        have hedge : nx.deps.any (fun e => e.1 == d) = true := (any_key_iff nx.deps d).2 ⟨o, hm⟩
-        simp only [hx1, hedge, Bool.true_and] at hc2
-        have hcs : s.dirty x d = false := by rw [hdirty] at hc1; exact hc1
-        obtain ⟨⟨nd, hnd, hvd⟩, hsd⟩ := inv.clean_settled x nx h d o hm hcs
-        obtain ⟨dd, hpd, _⟩ := inv.kind d nd hnd
-        have hlt : d < p.length := by
-          rw [List.getElem?_eq_some_iff] at hpd
-          obtain ⟨h, _⟩ := hpd; exact h
-        rw [affected_stable ch down1 d (p.length + 1) (by komega)] at hc2
-        obtain ⟨hs', n0, n0', hn0, hn0', hv0⟩ :=
-          settled_unaffected inv (s0 := { s with epoch := s.epoch + 1 }) rfl rfl
-            ⟨hep, hdirty, hlog, hnodes⟩ down1 hsd hc2
-        rw [hnd] at hn0; cases hn0
-        exact ⟨⟨n0', hn0', by rw [hv0, hvd]⟩, hs'⟩
-      · rw [h] at hm; cases hm
+    refine ⟨?_, by simpa using hio.2.1, hio.1, hep, hworld, hio.2.2, l, hlog, ?_⟩
+    · constructor
+      · intro x nx hx
+        rcases cls x nx hx with h | ⟨h1, h2, _, d, hp, hi⟩
+        · exact inv.kind x nx h
+        · exact ⟨d, hp, hi, fun _ => h2⟩
+      · exact down1
+      · intro x nx hx
+        rcases cls x nx hx with h | ⟨_, h, _⟩
+        · exact inv.nodup x nx h
+        · rw [h]; simp
+      · intro x nx d hx hp hi
+        rcases cls x nx hx with h | ⟨h, _⟩
+        · exact inv.trace x nx d h hp hi
+        · exact absurd hi h
+      · intro x nx hx
+        show nx.lastVerified ≤ s1.epoch
+        rw [hep]
+        rcases cls x nx hx with h | ⟨_, _, h, _⟩
+        · have := inv.stamp x nx h; omega
+        · omega
+      · intro x nx hx hv d o hm
+        have hv : nx.lastVerified = s.epoch + 1 := by rw [← hep]; exact hv
+        rcases cls x nx hx with h | ⟨_, h, _⟩
+        · have := inv.stamp x nx h; omega
+        · rw [h] at hm; cases hm
+      · intro x nx hx d o hm hcl
+        have hx1 : s1.nodes x = some nx := hx
+        rcases cls x nx hx1 with h | ⟨_, h, _⟩
+        · simp only [markDirty, Bool.or_eq_false_iff] at hcl
+          obtain ⟨hc1, hc2⟩ := hcl
+          have hedge : nx.deps.any (fun e => e.1 == d) = true := (any_key_iff nx.deps d).2 ⟨o, hm⟩
+          simp only [hx1, hedge, Bool.true_and] at hc2
+          have hcs : s.dirty x d = false := by rw [hdirty] at hc1; exact hc1
+          obtain ⟨⟨nd, hnd, hvd⟩, hsd⟩ := inv.clean_settled x nx h d o hm hcs
+          obtain ⟨dd, hpd, _⟩ := inv.kind d nd hnd
+          have hlt : d < p.length := by
+            rw [List.getElem?_eq_some_iff] at hpd
+            obtain ⟨h, _⟩ := hpd; exact h
+          rw [affected_stable ch down1 d (p.length + 1) (by komega)] at hc2
+          obtain ⟨hs', n0, n0', hn0, hn0', hv0⟩ :=
+            settled_unaffected inv (s0 := sessionStart ws s) rfl rfl
+              ⟨hep, hdirty, hworld, ⟨l, hlog, hlm⟩, hnodes⟩ down1 hsd hc2
+          rw [hnd] at hn0; cases hn0
+          exact ⟨⟨n0', hn0', by rw [hv0, hvd]⟩, hs'⟩
+        · rw [h] at hm; cases hm
+    · intro x hx
+      refine ⟨?_, hlm x hx⟩
+      false_or_by_contra
+      rename_i hnr
+      have := applySets_log p ws _ [] [] s1 rs ch hnr ha
+      have hl0 : s1.log = s.log := this
+      rw [hlog] at hl0
+      have : l = [] := by simpa using hl0
+      rw [this] at hx; cases hx
 
 end Qbice.Core
